@@ -394,7 +394,7 @@ def family(tier):
     q = [
         ("ext", _desc([(["ab"], "Abba"), (["abc"], "alphabet")], "abc"), dict(hold=4)),
         ("pre", _desc([(["ab"], "he"), (["abc"], "help"), (["bc"], "x")], "abc", ss="add-space-only"), dict(hold=3)),
-        ("fol", _desc([(["ab"], "day"), (["ab", "c"], "Monday"), (["ab", "a"], "do")], "abc"), dict(hold=3)),
+        ("fol", _desc([(["ab"], "day"), (["ab", "bc"], "Monday"), (["ab", "a"], "do")], "abc"), dict(hold=3)),
         ("sft", _desc([(["ab"], "Hi"), (["ab", "a"], "him")], "ab", ["rsft"]), dict(hold=3)),
         ("ssp", _desc([(["ab"], "hi")], ["a", "b", "comm"], ss="full"), dict(hold=3)),
         ("spc", _desc([([" a"], "and"), ([" ab"], "about")], ["spc", "a", "b"]), dict(hold=3)),
@@ -476,6 +476,7 @@ def run(tier, seed):
         groups["random"].append(job(desc, "r:rd%d" % i, [rand_typing(rng, desc, rng.randint(4, 60)) for _ in range(30 if quick else 120)]))
     nrej = 0
     classes = {}
+    rejected = []
     for label in ("witness", "drift", "attempts", "random"):
         jobs = groups[label]
         if not jobs:
@@ -491,6 +492,8 @@ def run(tier, seed):
             j, s = script_of(jobs, e["job"], 0)
             cls = e["err"].split("class=")[-1] if "class=" in e["err"] else e["err"]
             classes[cls] = classes.get(cls, 0) + 1
+            if len(rejected) < 400:
+                rejected.append({"err": e["err"], "cfg": j["cfg"], "files": j["files"], "params": j["params"], "script": s, "tag": j["tag"]})
             text = e["err"] + " dictionary=" + json.dumps(j["files"]["dict"]) + " " + j["cfg"].splitlines()[-1]
             known = any(flow.sig_matches(f, pid, text) for f in known_findings().get("findings", []))
             if not known and nviol >= 6:
@@ -501,6 +504,7 @@ def run(tier, seed):
                 nviol += 1
         if label == "attempts" and len(res.samples) < 6:
             res.samples.append({"attempt_script": jobs[0]["scripts"][0][:24], "dictionary": jobs[0]["files"]["dict"]})
+    json.dump(rejected, open(os.path.join(wd, "rejected.json"), "w"))     # scratch, for triage (work/c20/show.py)
     res.extra["rejections_by_class"] = classes
     res.extra["recorded_traces_rejected"] = nrej
     return flow.finish(
